@@ -33,6 +33,9 @@ func (o *OCIDir) ManifestDelete(ctx context.Context, r ref.Ref, opts ...scheme.M
 	if r.Digest == "" {
 		return fmt.Errorf("digest required to delete manifest, reference %s%.0w", r.CommonName(), errs.ErrMissingDigest)
 	}
+	if err := digest.Digest(r.Digest).Validate(); err != nil {
+		return fmt.Errorf("invalid digest in reference %s: %w", r.CommonName(), err)
+	}
 
 	mc := scheme.ManifestConfig{}
 	for _, opt := range opts {
